@@ -1616,6 +1616,32 @@ class RealHeap:
                     st.update(id(x) for x in v if isinstance(x, Expr))
         return st
 
+    def has_cycle_from(self, n) -> bool:
+        from sqlglot.expressions.core import Expr
+        WHITE, GREY, BLACK = 0, 1, 2
+        color = {}
+        stack = [(self.reg[n], False)]
+        while stack:
+            o, leaving = stack.pop()
+            if leaving:
+                color[id(o)] = BLACK
+                continue
+            c = color.get(id(o), WHITE)
+            if c == GREY:
+                return True
+            if c == BLACK:
+                continue
+            color[id(o)] = GREY
+            stack.append((o, True))
+            for v in o.args.values():
+                kids = [v] if isinstance(v, Expr) else ([x for x in v if isinstance(x, Expr)] if type(v) is list else [])
+                for k in kids:
+                    if color.get(id(k), WHITE) == GREY:
+                        return True
+                    if color.get(id(k), WHITE) == WHITE:
+                        stack.append((k, False))
+        return False
+
     def is_ancestor_or_self(self, a, n) -> bool:
         """does the subtree below registry node a contain n (following args)?"""
         from sqlglot.expressions.core import Expr
@@ -1692,6 +1718,12 @@ def random_history(rng, max_len, wild=0.08):
     ops = []
 
     def emit(op):
+        # a caller-made cycle (possible through a stale parent pointer) makes hash()/copy() loop forever in Python:
+        # never execute a traversal over one
+        if op["op"] in ("hash", "copy") and real.has_cycle_from(op["n"]):
+            return "ok"
+        if op["op"] == "eq" and (real.has_cycle_from(op["a"]) or real.has_cycle_from(op["b"])):
+            return "ok"
         r = real.apply(op)
         ops.append(op)
         return r
@@ -1807,14 +1839,16 @@ def random_history(rng, max_len, wild=0.08):
             res = emit({"op": "append", "n": tgt, "k": k, "it": it})
         elif r < 0.70:
             vr = rng.random()
+            # the value lands under tgt's PARENT POINTER (possibly stale): keep that node's ancestors out too
+            anchor = real.ids.get(id(o.parent), tgt) if o.parent is not None else tgt
             if vr < 0.2:
                 v = None
             elif vr < 0.8:
-                v = {"n": pick_node_value(tgt)}
+                v = {"n": pick_node_value(anchor)}
                 # never replace by the parent's ancestor chain (cycle) — pick_node_value already excludes ancestors of tgt;
                 # the value goes under tgt's PARENT, whose ancestors are tgt's ancestors too
             elif vr < 0.9 and o.index is not None:
-                v = {"l": pick_items(tgt)}
+                v = {"l": pick_items(anchor)}
             else:
                 v = {"s": "x"}
             if v is not None and "l" in v and o.index is None and o.parent is not None:
